@@ -24,3 +24,10 @@ B("Iterate", "H_bmIterate", ["C08"], bounded=ARR, functions=["varintBitmapToArra
 for n in (0, 3, 5, 7, 9, 12):
     B("DecodeHostile/len%d" % n, "H_bmDecodeHostile", ["C14", "C08"], defines=["BM_HLEN=%d" % n], unwind=14, functions=["varintBitmapDecode"],
       bounded="input of exactly %d bytes, arbitrary contents (object of exactly that size)" % n)
+B("RunsClear", "H_bmRunsClear", ["C08"], unwind=4, functions=["varintBitmapClear", "varintBitmapContains", "varintBitmapIsEmpty", "varintBitmapCardinality", "varintBitmapIteratorNext"],
+  bounded="RUNS container with exactly one run (every start/length); loops unwound 4 times with unwinding assertions")
+B("DecodeDense", "H_bmDecodeDense", ["C08"], unwind=4, tier="thorough", timeout=5400, mem_gb=10, functions=["varintBitmapDecode"],
+  note="dense-container stream with arbitrary bits and any declared cardinality 0..65536: loop-free, complete for that container type")
+B("EnsureCapacity", "H_bmEnsureCapacity", ["C08"], unwind=8, functions=["arrayEnsureCapacity_"], bounded=ARR + "; requested capacity <= 64")
+B("OOM/EnsureCapacity", "H_bmEnsureCapacity", ["C18"], unwind=8, defines=["BM_OOM=1"], malloc_may_fail=True, flags=["--memory-leak-check"],
+  functions=["arrayEnsureCapacity_"], bounded=ARR + "; requested capacity <= 64; the realloc may fail")
